@@ -44,12 +44,14 @@ def parseTs : List String → Option TunnelState
 
 /-- what appears while the request polls: `late bridge <mid>` = the listen client of <mid> opens the tunnel on
 this node (bridge + route to node-A), `late route <mid>` = only a route naming this node, `late remote <mid>` = a
-route naming node-B.  Absent = nothing appears. -/
+route naming node-B, `late window <mid>` = the listen client of <mid> opens the tunnel in the window between the
+dispatcher's bridge look-up and handleTargetBridge's (the requester's ack write is held meanwhile).  Absent = nothing. -/
 def parseLate : List String → Option Late
   | [] => some .none
   | ["late", "bridge", m] => some (.route m "node-A" true)
   | ["late", "route", m] => some (.route m "node-A" false)
   | ["late", "remote", m] => some (.route m "node-B" false)
+  | ["late", "window", m] => some (.window m)
   | _ => none
 
 def parseCase : List String → Option Case
